@@ -46,9 +46,11 @@ Definition graph_op (o : pop) : bool :=
 Definition route_op (o : pop) : bool :=
   match o with PAddRoute _ => true | _ => false end.
 
-(* capacity is not binding: the load stays in [0, cap] along every node sequence *)
+(* capacity is not binding: the load stays in [0, cap] along every trip depot, pairwise distinct customers, depot
+   (the only node sequences a route can be; e.g. all demands 0, or -- examples/small.py -- capacity 6 with demands 1, 2, 2) *)
 Definition capacity_free (st : pstate) : Prop :=
-  forall rest, Forall (fun l => 0 <= l <= pcap st) (loads (pg st) (pinit st) rest).
+  forall cs, NoDup cs -> ~ In O cs ->
+    Forall (fun l => 0 <= l <= pcap st) (loads (pg st) (pinit st) (cs ++ [O])).
 
 (* no depot self-arc in the VRPTW graph: the empty trip D -> D is not a route (the independent
    reference solver of the runtime check does not count it either) *)
